@@ -215,7 +215,9 @@ func runC19(rep *Report, tier string, seed int64, replay string) {
 	// corpus first: shrunk past failures
 	for _, c := range []string{"R00 P0 P0", "R00 P0 F0", "R00 P0 C", "R00 P0 X0", "R00 R01 P0 X0",
 		// two receivers with different contexts on one key, the first one's context ends, a publish follows, then Close / Free
-		"R00 R01 X0 P0 C", "R00 R01 X0 P0 F0", "R00 F0 R01 P0 C"} {
+		"R00 R01 X0 P0 C", "R00 R01 X0 P0 F0", "R00 F0 R01 P0 C",
+		// Close / Free are idempotent, with or without a cause
+		"R00 C C", "C R00 C", "R00 F0 F0", "R00 R10 C C"} {
 		jobs = append(jobs, job{parseBcOps(c)})
 	}
 	for n := 1; n <= maxOps; n++ {
